@@ -665,6 +665,38 @@ def check_kernels(prog, rep):
         return
     xn, yn = xs[0][0], ys[0][0]
     rets = [n for n in f.own_nodes() if isinstance(n, ast.Return)]
+    # special cases in front of the formula (`if half_w == 0 or half_h == 0: return np.ones((1, 1))`): the guard is folded for
+    # half sizes 0..3 on both axes; wherever it holds, the constant kernel returned must be what the formula gives there - shape
+    # (2*half_h + 1, 2*half_w + 1), and all ones only where every grid point satisfies the inequality
+    early = [s_ for s_ in f.node.body if isinstance(s_, ast.If) and not s_.orelse and len(s_.body) >= 1 and isinstance(s_.body[-1], ast.Return) and
+             all(isinstance(b_, ast.Expr) for b_ in s_.body[:-1])]
+    if early and len(rets) == len(early) + 1:
+        from ..consteval import CannotFold, Folder
+        for s_ in early:
+            r_ = s_.body[-1]
+            v_ = r_.value
+            shp = fillv = None
+            if isinstance(v_, ast.Call) and short(v_) in ('ones', 'zeros', 'full') and v_.args and isinstance(v_.args[0], ast.Tuple) and len(v_.args[0].elts) == 2:
+                shp = tuple(const(e_) for e_ in v_.args[0].elts)
+                fillv = {'ones': 1, 'zeros': 0}.get(short(v_), const(v_.args[1]) if len(v_.args) > 1 else None)
+            bad_, ok_ = [], None
+            if shp is not None and all(isinstance(x_, int) for x_ in shp) and fillv is not None:
+                ok_ = True
+                try:
+                    for w_ in range(4):
+                        for h_ in range(4):
+                            if Folder(prog, m).ev(s_.test, {hw: w_, hh: h_}):
+                                want_shape = (2 * h_ + 1, 2 * w_ + 1)
+                                inside = [(xx * h_) ** 2 + (yy * w_) ** 2 <= (w_ * h_) ** 2 for yy in range(-h_, h_ + 1) for xx in range(-w_, w_ + 1)]
+                                if shp != want_shape or not all(bool(i_) == bool(fillv) for i_ in inside):
+                                    ok_ = False
+                                    bad_.append('for half sizes (%s=%d, %s=%d) the formula gives a %d x %d kernel, the special case returns %d x %d'
+                                                % (hw, w_, hh, h_, want_shape[0], want_shape[1], shp[0], shp[1]))
+                except CannotFold as e_:
+                    ok_, bad_ = None, ['guard not foldable: %s' % e_]
+            rep.add('E1', f, entry, 'special case `%s`' % norm(s_.test)[:80], s_.lineno, ok_,
+                    'a special case in front of the ellipse formula must return what the formula gives: ' + '; '.join(bad_[:2]))
+        rets = [r_ for r_ in rets if not any(r_ is s_.body[-1] for s_ in early)]
     if len(rets) != 1 or rets[0].value is None:
         rep.add('E1', f, entry, 'ellipse inequality', f.node.lineno, None, 'single return not found')
         return
